@@ -12,6 +12,14 @@ pub fn replay(path: &str) {
     if let Some(input) = v["detail"].get("input") {
         println!("input: {}", input);
     }
+    if let Some(a) = v["detail"].get("engine_s_replay").and_then(|a| a.as_array()) {
+        let exe = format!("{}/engine_s/target/release/engine_s", crate::report::verif_root());
+        let args: Vec<String> = a.iter().map(|x| x.as_str().map(|s| s.to_string()).unwrap_or_else(|| x.to_string())).collect();
+        let st = std::process::Command::new(exe).arg("--replay").args(&args).status();
+        println!("engine S replay exit: {:?}", st);
+        println!("VIOLATION property={} replay={}", prop, path);
+        std::process::exit(1);
+    }
     let hist: Vec<Op> = serde_json::from_value(v["history"].clone()).unwrap_or_default();
     if !hist.is_empty() || v["detail"].get("menu").is_some() {
         let docs: Vec<Value> = v["detail"]["menu"]["docs"].as_array().cloned().unwrap_or_default();
